@@ -459,7 +459,11 @@ def run_raw_schedule(d, oracle, k, sched):
         obs.append(f'e~{r}')
     if not viol:
         late = Evaluator(model)
-        for a in d:
+        late_cells = list(d)
+        if len(late_cells) > 60:        # the size workbooks: formula cells only, thinned (each costs a fresh compile)
+            late_cells = [a for a in late_cells if raw_is_formula(d[a])]
+            late_cells = late_cells[::max(1, len(late_cells) // 24)]
+        for a in late_cells:
             r = evalwire.canon_result(late.evaluate, a)
             want = oracle.value(inputs, a)
             if r != want:
